@@ -240,3 +240,15 @@ ADDENDA6 = {
 }
 for _k, _t in ADDENDA6.items():
     CLAIMS[_k]["text"] = CLAIMS[_k]["text"] + " " + _t
+
+ADDENDA7 = {
+ "C04": "Also: hackpadfs.ValidPath is exactly io/fs.ValidPath.",
+ "C05": "Also: a parent that is not a directory is answered with ErrNotDir.",
+ "C06": "Also: nothing that can fail on the destination follows the removal of the source in the cross-mount copy.",
+ "C10": "Also: the directory handle's page window is inside the listing; the never-serve mark is read under the path lock.",
+ "C11": "Also: the never-serve mark is read under the path lock.",
+ "C14": "Also: every transaction begun in package keyvalue ends on every path.",
+ "C19": "Also: lengths stored into typed-array blobs built in place are measured or guarded; caller-sized allocations are recovered whether or not the lock is held.",
+}
+for _k, _t in ADDENDA7.items():
+    CLAIMS[_k]["text"] = CLAIMS[_k]["text"] + " " + _t
